@@ -40,6 +40,7 @@ class Cond:
     known: list = dataclasses.field(default_factory=list)
     twin: bool = False              # reachability twin: must be refuted
     module: str = ''
+    direct: Optional[Callable] = None   # direct solver query instead of path exploration: () -> result dict
 
 
 @dataclasses.dataclass
@@ -87,6 +88,8 @@ def load_known(prop: str):
 
 # ------------------------------------------------------------------ exploration (child process)
 def explore(cond: Cond, seed: int) -> dict:
+    if cond.direct is not None:
+        return run_direct(cond)
     from kit import env
     env.install()
     env.set_format_stub(cond.format_stub)
@@ -207,6 +210,25 @@ def explore(cond: Cond, seed: int) -> dict:
     res['solver'] = {k: (round(v, 3) if isinstance(v, float) else v) for k, v in qstats.items()}
     if res['status'] == 'confirmed' and res['reached'] == 0:
         res['status'] = 'vacuous'
+    return res
+
+
+def run_direct(cond: Cond) -> dict:
+    """a condition decided by one (or a few) direct z3 queries built from the current source/data of /repo"""
+    from time import process_time
+    t0, w0 = process_time(), time.time()
+    res = {'cond': cond.id, 'paths': 0, 'reached': 0, 'ignored': 0, 'unknown': 0, 'known_hits': {}, 'status': None, 'failure': None,
+           'unknown_reasons': {}, 'witness': None, 'exhausted': False}
+    try:
+        out = cond.direct()
+        res.update(out)
+        res['exhausted'] = res['status'] == 'confirmed'
+    except BaseException as e:  # noqa: BLE001
+        res['status'] = 'harness-error'
+        res['failure'] = {'what': 'direct query raised ' + type(e).__name__, 'observed': {'traceback': traceback.format_exc()[-3000:]}}
+    res['cpu_s'] = round(process_time() - t0, 2)
+    res['wall_s'] = round(time.time() - w0, 2)
+    res.setdefault('solver', {})
     return res
 
 
